@@ -61,6 +61,13 @@ def _ctor_body(kind, R, W, a, b, step, bits):
         new = [900 + i for i in range(R)]; r = t >> Vector(new, name='n'); exp = m + [new]
     elif kind == 'rshift_dict':
         new = [900 + i for i in range(R)]; r = t >> {'n': new, 'o': Vector(new)}; exp = m + [new, new]
+    elif kind == 'rshift_dict_dupname':
+        # a key equal to an existing column's name still APPENDS a column (repeated names are allowed); nothing is replaced
+        if W == 0: return None
+        new = [900 + i for i in range(R)]; r = t >> {NAMES[0]: new}; exp = m + [new]
+    elif kind == 'rshift_vec_dupname':
+        if W == 0: return None
+        new = [900 + i for i in range(R)]; r = t >> Vector(new, name=NAMES[W - 1]); exp = m + [new]
     elif kind == 'rshift_table':
         if W == 0: return None
         r = t >> mk(R, 2, 500); exp = m + model(R, 2, 500)
@@ -144,7 +151,7 @@ def _ctor_body(kind, R, W, a, b, step, bits):
 
 
 CTORS = ['dict', 'list', 'vecvec', 'copy', 'rshift_vec', 'rshift_dict', 'rshift_table', 'rshift_iter', 'lshift_row', 'lshift_table', 'slice', 'mask',
-         'colsel', 'sel2d_names', 'sel2d_slice', 'sort', 'join', 'full_join', 'inner_join', 'aggregate', 'window', 'T', 'TT', 'arith', 'csv']
+         'colsel', 'sel2d_names', 'sel2d_slice', 'sort', 'join', 'full_join', 'inner_join', 'aggregate', 'window', 'T', 'TT', 'arith', 'csv', 'rshift_dict_dupname', 'rshift_vec_dupname']
 
 
 def h_ctor(R: int, W: int, ai: int, bi: int, m0: bool, m1: bool, m2: bool, vecmask: bool) -> bool:
